@@ -228,6 +228,9 @@ func ErrorOfKind(kind int, name string) error {
 		return context.DeadlineExceeded // a single client-side timeout of one call
 	case 7:
 		return fmt.Errorf("Post %q: %w", name, context.Canceled)
+	case 8:
+		// refused for now, not for ever: quota exhausted, namespace terminating, RBAC not yet propagated
+		return kerrors.NewForbidden(execution.Resource("job"), name, errInjected)
 	}
 	return kerrors.NewBadRequest("bad")
 }
